@@ -306,7 +306,7 @@ func fillZero(t types.Type, into []Value) {
 		if n == 0 {
 			return
 		}
-		if es == 1 {
+		if es == 1 && !isAgg(u.Elem()) {
 			z := zeroCell(u.Elem())
 			for i := 0; i < n; i++ {
 				into[i] = z
@@ -350,7 +350,7 @@ func (e *Engine) newArrayObj(et types.Type, n int) *Obj {
 	es := flatSize(et)
 	o := &Obj{n: n * es, epoch: e.epoch, id: e.nextObj, typ: et}
 	e.nextObj++
-	if n*es > sparseThreshold && es == 1 {
+	if n*es > sparseThreshold && es == 1 && !isAgg(et) {
 		o.sparse = map[int]Value{}
 		o.zero = zeroCell(et)
 		return o
@@ -360,7 +360,7 @@ func (e *Engine) newArrayObj(et types.Type, n int) *Obj {
 	}
 	o.cells = make([]Value, n*es)
 	if n > 0 {
-		if es == 1 {
+		if es == 1 && !isAgg(et) {
 			z := zeroCell(et)
 			for i := range o.cells {
 				o.cells[i] = z
